@@ -581,6 +581,21 @@ def merge_cov(covs):
     return rep
 
 
+# cases that make the coverage run reach the rarely taken arms whatever the seed: identical tetrahedra with
+# equal moduli (contact_plane: norm == 0 -> _handle_same_tetrahedron), two far apart cubes (no contact at all)
+_I4 = [[1.0, 0.0, 0.0, 0.0], [0.0, 1.0, 0.0, 0.0], [0.0, 0.0, 1.0, 0.0], [0.0, 0.0, 0.0, 1.0]]
+_T = [[0.0, 0.0, 0.0], [1.0, 0.0, 0.0], [0.0, 1.0, 0.0], [0.25, 0.25, 1.0]]
+COV_FIXED = [
+    dict(kind="pair", cls="cov_same", t1=_T, e1=[0.0, 0.0, 0.0, 0.5], t2=_T, e2=[0.0, 0.0, 0.0, 0.5], E1=1.0, E2=1.0),
+    dict(kind="bodies", cls="cov_separated", b1=dict(shape="cube", params=dict(size=1.0), pose=_I4, E=1.0),
+         b2=dict(shape="cube", params=dict(size=1.0), pose=[[1.0, 0.0, 0.0, 5.0], [0.0, 1.0, 0.0, 0.0], [0.0, 0.0, 1.0, 0.0], [0.0, 0.0, 0.0, 1.0]], E=1.0),
+         use_aabb_trees=False, all_pairs=False, max_contacts=4),
+    dict(kind="bodies", cls="cov_stacked_tree", b1=dict(shape="cube", params=dict(size=1.0), pose=_I4, E=1.0),
+         b2=dict(shape="cube", params=dict(size=1.0), pose=[[1.0, 0.0, 0.0, 0.0], [0.0, 1.0, 0.0, 0.0], [0.0, 0.0, 1.0, 0.9], [0.0, 0.0, 0.0, 1.0]], E=2.0),
+         use_aabb_trees=True, all_pairs=False, max_contacts=4),
+]
+
+
 # ---------------------------------------------------------------- case generation
 def gen_cases(rng, tier):
     quick = tier == "quick"
@@ -683,6 +698,7 @@ def run(tier, seed, replay=None):
     cov_cases += [dict(c, all_pairs=False) for c in small[:3]] + [dict(c, all_pairs=False, use_aabb_trees=not c["use_aabb_trees"]) for c in small[:1]]
     cov_cases += [dict(c, all_pairs=False) for c in bodies if c["cls"].startswith("bodies_separated") and c["b1"]["shape"] in ("cube", "box", "sphere")][:1]
     cov_cases += [u for u in units if u["fn"] in ("tess", "force", "same", "order", "pairs")][:30]
+    cov_cases += COV_FIXED
     with ThreadPoolExecutor(4) as ex:
         fp = ex.submit(run_workers, pairs, "pair", "c15", 40)
         fb = ex.submit(run_workers, bodies, "body", "c15", 2)
